@@ -26,6 +26,9 @@ def gen_cfg(r, i):
     cfg["kernel_steps"] = int(r.choice([2, 3]))
     if i % 3 == 1:
         cfg["fault_kind"] = "interrupt"        # the interruption arrives as a KeyboardInterrupt instead of an Exception
+    if cfg.get("n_final_samples") is not None and i % 2 == 0:
+        # the final enlargement runs its kernel for another number of steps than the loop (sampler_kwargs["n_final_steps"])
+        cfg["final_kernel_steps"] = cfg["kernel_steps"] + 2
     if i % 5 == 4:
         cfg["precond"] = {"bounded_to_unbounded": True, "bounded_transform": "logit", "affine_transform": bool(i % 2)}
     return cfg, mode
